@@ -110,7 +110,13 @@ def scan_trusted(lines):
 def classify(gen, res, unit):
   """-> (failures, undecided) ; failures: list of dict(name, props, msg, at, detail)"""
   fails, undec = [], []
+  seen = set()
   for d in res["diags"]:
+    key = d.get("rendered") or str(d.get("spans"))
+    key = re.sub(r"/[^\s:]+\.rs", "F.rs", key)
+    if key in seen:
+      continue
+    seen.add(key)
     if d.get("level") not in ("error",):
       continue
     msg = d.get("message", "")
